@@ -196,6 +196,8 @@ type Sim struct {
 	helperSeen map[string]bool
 	Releases   []RelInfo
 	revDirty   bool
+	// revDirtySeq: call sequence number at the last such write
+	revDirtySeq int
 
 	oracles *oracleState
 	quiet   bool // quiesce phase: no faults, deterministic
@@ -215,6 +217,7 @@ func NewSim(seed uint64, cfg *Config) *Sim {
 		// written by anybody but a worker is invisible to it until the next reconcile
 		if k == KRev && (s.current == nil || s.current.rec == nil) {
 			s.revDirty = true
+			s.revDirtySeq = s.seq
 		}
 	}
 	s.oracles = newOracleState()
